@@ -48,11 +48,12 @@ func genC18Addr(rt *rapid.T, label string) (c18Addr, string) {
 }
 
 type c18Local struct {
-	id   string
-	addr c18Addr
-	port string
-	form string // "id" or "enode"
-	adv  string // enode form: the host the peer advertises for itself ("" = the address it is connected from)
+	id    string
+	addr  c18Addr
+	port  string
+	form  string // "id" or "enode"
+	adv   string // enode form: the host the peer advertises for itself ("" = the address it is connected from)
+	zoned bool   // connected over a zoned link-local address (the pool never lists such an address)
 }
 
 func (l c18Local) info(k int) ethnode.PeerInfo {
@@ -172,6 +173,11 @@ func c18Case(rt *rapid.T, rec *vt.Rec, viaRPCNode bool) {
 		for i := 0; i < universe; i++ {
 			if rapid.IntRange(0, 2).Draw(rt, "isLocal") > 0 {
 				ad, port := genC18Addr(rt, "localAddr")
+				zoned := false
+				if rapid.IntRange(0, 7).Draw(rt, "linkLocal") == 0 {
+					// connected over a link-local IPv6 address: the node reports it with its zone
+					ad, zoned = c18Addr{"[fe80::1%eth0]", "fe80::1%eth0", false}, true
+				}
 				form := rapid.SampledFrom([]string{"id", "enode"}).Draw(rt, "form")
 				if viaRPCNode && kind == ethnode.Parity {
 					form = "id" // parity_netPeers carries the public key as the id, there is no separate enode field
@@ -180,7 +186,7 @@ func c18Case(rt *rapid.T, rec *vt.Rec, viaRPCNode bool) {
 				if form == "enode" && rapid.IntRange(0, 2).Draw(rt, "advertisesOtherHost") == 0 {
 					adv = rapid.SampledFrom([]string{"[::]", "0.0.0.0", "127.0.0.1", "10.9.8.7", "198.51.100.77", "[2001:db8::77]", "node.internal"}).Draw(rt, "advertised")
 				}
-				locals = append(locals, c18Local{id: hexID(i), addr: ad, port: port, form: form, adv: adv})
+				locals = append(locals, c18Local{id: hexID(i), addr: ad, port: port, form: form, adv: adv, zoned: zoned})
 			}
 		}
 		setLocal(locals)
@@ -201,7 +207,7 @@ func c18Case(rt *rapid.T, rec *vt.Rec, viaRPCNode bool) {
 			case 0, 1: // pool lists it as active
 				l, isLocal := localByID[hexID(i)]
 				ad, port := genC18Addr(rt, "activeAddr")
-				if isLocal {
+				if isLocal && !l.zoned {
 					switch rapid.IntRange(0, 3).Draw(rt, "route") {
 					case 0, 1: // same host, same port
 						ad, port = l.addr, l.port
